@@ -227,7 +227,8 @@ class PopulationBalanceModel:
         time : float
             Time to load PSD from, will load to nearest time available
         '''
-        if self._record:
+        #Recorded data may have been removed (removeRecordedData) while recording is still enabled
+        if self._record and self._recordedTime is not None:
             if time <= self._recordedTime[0]:
                 print('Input time is lower than smallest recorded time, setting PSD to t = {:.3e}'.format(self._recordedTime[0]))
                 self.PSDbounds, self.PSD, self.PSDsize, self.bins, self.min, self.max = self._grabPSDfromIndex(0)
